@@ -95,7 +95,7 @@ func runLifetimes(kind string, conf, k int64, nh int, cfgStart, flags, stored0, 
 		rec := &startRecorder{inner: e.build(), env: e}
 		ctx, cancel := context.WithCancel(context.Background())
 		e.cancel = cancel
-		wireChain(kind, e.bs, cfgStart, latest, fresh, boot, k, rec).PollEvents(ctx)
+		wireChain(strings.TrimSuffix(kind, "+"), e.bs, cfgStart, latest, fresh, boot, k, rec).PollEvents(ctx)
 		e.wait()
 		out = append(out, rec.start+"@"+e.render())
 	}
@@ -191,6 +191,13 @@ func init() {
 	//   =>  <start>@head/calls/store;…|<start>@…
 	ops["C05.life"] = func(a []string) string {
 		return runLifetimes(a[0], i64(a[1]), i64(a[2]), int(u64(a[3])), a[4], a[5], a[6], a[7], a[8], newMemKV(), nil)
+	}
+	// lifereal: like `life`, but the REAL event handlers app.Run registers (EVM: DepositEventHandler + RetryV1EventHandler
+	// over the real events.Listener; Substrate: RetryEventHandler + FungibleTransferEventHandler; BTC: deposit handler)
+	// sit between the real listener and the node fake; handler objects live as long as the lifetime, a "call" is the
+	// range the NODE was asked for, a scripted handler failure is a failed node read. nh = 1 or 2 (BTC: 1).
+	ops["C05.lifereal"] = func(a []string) string {
+		return runLifetimes(a[0]+"+", i64(a[1]), i64(a[2]), int(u64(a[3])), a[4], a[5], a[6], a[7], a[8], newMemKV(), nil)
 	}
 	// lifedb: the same over a real leveldb in a private temp dir (closed and re-opened between lifetimes is not
 	// possible with one handle per process; the handle is shared like in a real process restart after Close)
@@ -363,6 +370,55 @@ func genC05(g *G) {
 				}
 			}
 		}
+	}
+	// REAL handler stacks (handler objects keep their state across rounds): every pattern of failing-then-succeeding
+	// node reads over three rounds, for boundary start blocks (0, 1, k-1, k, k+1), then clean rounds and a restart
+	for _, kind := range kinds {
+		nh := realStackSize(kind)
+		pats := []string{"n"}
+		for i := 0; i < nh; i++ {
+			pats = append(pats, itoa(i))
+		}
+		for _, k := range []int64{1, 5} {
+			if kind == "btc" && k > 1 {
+				continue
+			}
+			for _, start := range []int64{0, 1, k - 1, k, k + 1} {
+				if start < 0 {
+					continue
+				}
+				for _, f1 := range pats {
+					for _, f2 := range pats {
+						h := itoa64(8*k + 9)
+						l1 := h + ":" + f1 + ":s;" + h + ":" + f2 + ":s;" + h + ":n:s;" + h + ":n:s;" + h + ":n:s"
+						l2 := h + ":n:s;" + h + ":n:s"
+						g.Emit("lifereal", kind, "1", itoa64(k), itoa(nh), itoa64(start), "-", "none", "0", l1+"|"+l2)
+					}
+				}
+			}
+		}
+	}
+	for i := 0; i < g.Count(300, 8000); i++ {
+		kind := kinds[g.Intn(3)]
+		k := int64(1 + g.Intn(5))
+		nh := 1 + g.Intn(realStackSize(kind))
+		cfgStart := int64(g.Intn(4))
+		if g.Intn(3) == 0 {
+			cfgStart = int64(g.Intn(12))
+		}
+		stored0 := "none"
+		if g.Intn(5) == 0 {
+			stored0 = itoa64(int64(g.Intn(12)))
+		}
+		head := cfgStart + int64(g.Intn(6))
+		nl := 1 + g.Intn(3)
+		ls := []string{}
+		for j := 0; j < nl; j++ {
+			var l string
+			l, head = genLife(g, kind, k, nh, head, g.Count(6, 10), true)
+			ls = append(ls, l)
+		}
+		g.Emit("lifereal", kind, "1", itoa64(k), itoa(nh), itoa64(cfgStart), g.Pick([]string{"-", "-", "-", "F"}), stored0, itoa64(head), strings.Join(ls, "|"))
 	}
 	// random long scripts over several lifetimes
 	for i := 0; i < g.Count(1200, 40000); i++ {
